@@ -260,14 +260,13 @@ def psi_to_dec_and_ra(
     )
 
     # Convert back to right-ascension and declination.
-    # This is to distinguish between diametrically opposite directions.
-    # Rounding errors can push z slightly outside [-1, 1] when the circle passes
-    # through a celestial pole, which would result in NaN.
-    z = np.clip(z, -1., 1.)
-    zen = np.arccos(z)
+    # The declination is calculated via arctan2 instead of arccos(z), because
+    # arccos looses all separations below ~1e-8 rad next to the celestial poles
+    # (z rounds to +-1) and returns NaN if rounding errors push z outside
+    # [-1, 1].
     azi = np.arctan2(y, x)
+    dec = np.arctan2(z, np.hypot(x, y))
 
-    dec = np.pi/2 - zen
     # azi lies in [-pi, pi], hence pi - azi in [0, 2*pi]; map 2*pi to 0 to stay
     # within [0, 2*pi).
     ra = np.mod(np.pi - azi, 2*np.pi)
